@@ -275,6 +275,13 @@ def c_torch_expr(ctx, args):
     if not np.allclose(got, want, atol=1e-4, rtol=0):
         return {'kind': 'oracle', 'where': 'torch:polynomial expression vs dense matrices', 'observed': [[[int(v) for v in g], float(ph), [complex(c).real, complex(c).imag]] for g, ph, c in zip(r.gs, r.ps, r.cs)][:8],
                 'expected': 'dense evaluation of the same expression', 'tags': ['torch']}
+    # the trace of the result (the port multiplies by i^p, so it is held to the TRUE trace: identity terms with complex coefficients and phases count)
+    try:
+        tr = complex(r.trace())
+    except (NotImplementedError, TypeError, AttributeError, RuntimeError):
+        return None
+    if abs(tr - np.trace(want)) > 1e-4 * max(1.0, abs(np.trace(want))):
+        return {'kind': 'oracle', 'where': 'torch:trace of a polynomial', 'observed': [tr.real, tr.imag], 'expected': [np.trace(want).real, np.trace(want).imag], 'tags': ['torch', 'trace']}
     return None
 
 
@@ -416,6 +423,9 @@ def run(ctx):
         n = rng.randint(1, 3)
         e = rexpr(rng, n, rng.randint(1, 3), ['pauli', 'poly', 'poly'])
         do(ctx, 'torch_expr', [n, e], nontrivial=('te', str(e)) if has(e, (4, 5, 6)) else None)
+        if it % 3 == 0:       # ... plus a complex multiple of a (phased) identity: the term that alone decides the trace
+            e2 = [4, e, [2, cfrac(rng.choice(COEFS)), [0, [0, [[0] * (2 * n), rng.randint(0, 3)]]]]]
+            do(ctx, 'torch_expr', [n, e2], nontrivial=('tei', str(e2)))
     # many qubits, local terms (fields, nearest-neighbour and periodic bonds, far-apart pairs): terms that differ only at the far end must stay apart
     for it in range(int(60 * B)):
         n = rng.choice([6, 12, 13, 14, 16, 20, 24])
